@@ -1,7 +1,7 @@
 """Generates the TLC configurations of C23 (SeriesCache*.cfg, SeriesCacheMem*.cfg): python3 gen_c23_cfgs.py [dir]"""
 import sys
 def cfg(name, NChunks, CS, NGets, Ranges, Plays="NoPlay", Forces="NoForce", MaxInv=1, MaxTrim=0, MaxFail=0, Age="AllOld",
-        FixAwait="TRUE", FixPublish="TRUE", FixInvMax="FALSE", SeqInv="TRUE", MaxOps=0, inv=None, props=None, spec=None, extra=""):
+        FixAwait="TRUE", FixPublish="TRUE", FixInvMax="FALSE", SeqInv="TRUE", MaxOps=0, AnyTakesAwaiters="FALSE", inv=None, props=None, spec=None, extra=""):
     inv = inv or "TypeOK Placement Produced Freshness NoDoubleSend NoLostWakeup AwaitersServed Accounting LoadingCount"
     head = "SPECIFICATION %s\n" % spec if spec else "INIT Init\nNEXT Next\n"
     s = head + """CONSTANTS
@@ -18,10 +18,11 @@ def cfg(name, NChunks, CS, NGets, Ranges, Plays="NoPlay", Forces="NoForce", MaxI
   FixAwait = %s
   FixPublish = %s
   FixInvMax = %s
+  AnyTakesAwaiters = %s
   SeqInv = %s
   MaxOps = %s
 VIEW View
-""" % (NChunks, CS, NGets, Ranges, Plays, Forces, MaxInv, MaxTrim, MaxFail, Age, FixAwait, FixPublish, FixInvMax, SeqInv, MaxOps)
+""" % (NChunks, CS, NGets, Ranges, Plays, Forces, MaxInv, MaxTrim, MaxFail, Age, FixAwait, FixPublish, FixInvMax, AnyTakesAwaiters, SeqInv, MaxOps)
     if inv != "-": s += "INVARIANTS %s\n" % inv
     if props: s += "PROPERTIES %s\n" % props
     s += extra + "CHECK_DEADLOCK FALSE\n"
@@ -46,6 +47,7 @@ cfg("SeriesCache_live_big.cfg", 2, 1, 2, "AllRanges", MaxInv=1, MaxTrim=1, MaxFa
 # the code before its repair: must fail (and export the schedule)
 cfg("SeriesCache_orig_await.cfg", 1, 2, 2, "AllRanges", MaxInv=1, FixAwait="FALSE", FixPublish="FALSE", inv="CexExport")
 cfg("SeriesCache_half_await.cfg", 1, 2, 3, "AllRanges", MaxInv=1, FixAwait="TRUE", FixPublish="FALSE", inv="CexExport")
+cfg("SeriesCache_anyaw.cfg", 1, 2, 3, "WholeChunkRanges", MaxInv=1, AnyTakesAwaiters="TRUE", inv="CexExport")
 cfg("SeriesCache_overlap_inv.cfg", 1, 2, 2, "AllRanges", MaxInv=2, SeqInv="FALSE", inv="CexExport")
 # behaviours for the schedule driver (simulation)
 cfg("SeriesCache_beh.cfg", 2, 2, 3, "AllRanges", MaxInv=1, MaxTrim=1, MaxFail=1, MaxOps=16, inv="-", extra="ACTION_CONSTRAINT Export\n")
